@@ -17,7 +17,8 @@ import json,os,shutil
 m=json.load(open('SEED/meta.json'))
 for k,v in m.get('demo_files',{}).items():
     src=os.path.join('SEED',k)
-    if os.path.isfile(src) and not v.startswith('(') and ' ' not in v:
+    v=v.split(' ')[0]
+    if os.path.isfile(src) and not v.startswith('('):
         os.makedirs(os.path.dirname(v) or '.',exist_ok=True); shutil.copy(src,v)
 PY
 }
